@@ -692,9 +692,54 @@ func c02numbering(c *core.Ctx) {
 	}
 }
 
+// a typedef whose type is a leafref with a relative path: the path means something at the leaves that use the typedef
+// (RFC 7950 9.9.2: evaluated in the context of the leaf), and something else at each of them
+func c02typedefLeafref(c *core.Ctx) {
+	y := `module tl { namespace "urn:tl"; prefix tl; revision 2020-01-01;
+  typedef r { type leafref { path "../name"; } } typedef r2 { type r; units u2; }
+  container c { leaf name { type int32; } leaf ref { type r; } leaf-list refs { type r2; } }
+  container d { leaf name { type string { length "1..3"; } } leaf ref { type r; } container in { leaf name { type boolean; } leaf ref { type r2; } } }
+  grouping g { leaf name { type uint8; } leaf gref { type r; } } container e { uses g; } }`
+	var m *meta.Module
+	var err error
+	if e := safeDo(func() error {
+		m, err = parser.LoadModuleFromString(nil, y)
+		if err == nil {
+			DumpModule(m, true).Lines()
+		}
+		return nil
+	}); e != nil {
+		err = e
+	}
+	c.Evaluations++
+	c.Count("typedef_leafref", "load")
+	if err != nil {
+		c.Violation(core.Replay{Kind: "property-failure", Class: "typedef-leafref-load", Summary: "valid module (typedef of a leafref with a relative path) does not load: " + err.Error(), Input: y})
+		return
+	}
+	for path, want := range map[string]string{"c/ref": "leafref→int32", "c/refs": "leafref-list→int32", "d/ref": "leafref→string", "d/in/ref": "leafref→boolean", "e/gref": "leafref→uint8"} {
+		t := meta.Find(m, path).(meta.HasType).Type()
+		got := "?"
+		if e := safeDo(func() error {
+			got = fmt.Sprintf("%s→%s", t.Format(), t.Resolve().Format())
+			return nil
+		}); e != nil {
+			got = e.Error()
+		}
+		c.Evaluations++
+		c.Count("typedef_leafref", "leaf")
+		c.Distinct("typedefleafref " + path)
+		if got != want {
+			c.Violation(core.Replay{Kind: "property-failure", Class: "typedef-leafref", Summary: fmt.Sprintf("leaf %s of a typedef'd relative leafref: %s, the path leads to %s from there", path, got, want),
+				Input: map[string]interface{}{"yang": y, "leaf": path}, Impl: got, Spec: want})
+		}
+	}
+}
+
 func C02(c *core.Ctx) {
 	c02numbering(c)
-	c.Rule = "generated module sets (main module + submodule + imported module): typedef chains of depth 1–4 over int32/uint8/int64 (ranges), string (length, pattern), enumeration and bits (explicit, missing, zero and negative values; derived subsets), decimal64 (fraction-digits, range), boolean, identityref, leafref, unions of those, each level optionally stating default and units; typedefs at module level, in the submodule, in the imported module (prefixed) and local to a container (also shadowing a module-level name); leaves and leaf-lists of every level, with and without restrictions, default and units of their own, mandatory / min-elements 1 on a fifth of those without a default (the default of the type is then not the leaf's), at module level, in containers with local typedefs, and in a grouping used 1–3 times; for every leaf of the compiled tree the effective type read through the accessors (format, ranges, lengths, patterns, enum values, bit positions, union members, leafref path and target format, identityref bases, fraction-digits, default, units) compared with the Lean derivation; bits and enumerations written directly on leaf-lists; unions placed in a module-level typedef (member typedefs with default/units). non-trivial = leaf whose type is a typedef chain of depth ≥2 or a union; distinct by (module set, leaf); directed (c02numbering): automatic enum values and bit positions after negative, descending and extreme stated ones"
+	c02typedefLeafref(c)
+	c.Rule = "generated module sets (main module + submodule + imported module): typedef chains of depth 1–4 over int32/uint8/int64 (ranges), string (length, pattern), enumeration and bits (explicit, missing, zero and negative values; derived subsets), decimal64 (fraction-digits, range), boolean, identityref, leafref, unions of those, each level optionally stating default and units; typedefs at module level, in the submodule, in the imported module (prefixed) and local to a container (also shadowing a module-level name); leaves and leaf-lists of every level, with and without restrictions, default and units of their own, mandatory / min-elements 1 on a fifth of those without a default (the default of the type is then not the leaf's), at module level, in containers with local typedefs, and in a grouping used 1–3 times; for every leaf of the compiled tree the effective type read through the accessors (format, ranges, lengths, patterns, enum values, bit positions, union members, leafref path and target format, identityref bases, fraction-digits, default, units) compared with the Lean derivation; bits and enumerations written directly on leaf-lists; unions placed in a module-level typedef (member typedefs with default/units). non-trivial = leaf whose type is a typedef chain of depth ≥2 or a union; distinct by (module set, leaf); directed (c02numbering): automatic enum values and bit positions after negative, descending and extreme stated ones; (c02typedefLeafref) a typedef of a leafref with a relative path used by five leaves in different places"
 	c.Assumptions = append(c.Assumptions,
 		"ranges are compared as written, level by level (their meaning for values is C05); identityref acceptance of derived identities is exercised by C05/C15",
 		"defaults are chosen inside every restriction of their chain so that every generated module set is valid")
